@@ -10,11 +10,14 @@ import ClarabelProofs.Lemmas.KktPlace
 import ClarabelProofs.Lemmas.KktExpansion
 import ClarabelProofs.Lemmas.KktRestore
 import ClarabelProofs.Lemmas.KktUpdate
+import ClarabelProofs.Lemmas.KktUpdateSparse
+import ClarabelProofs.Lemmas.KktFillBlock
 
 namespace Clarabel.C11
 open Clarabel Clarabel.Csc Clarabel.Kkt
 open Clarabel.Lemmas.KktPlace
 open Clarabel.Lemmas.KktExpansion
+open Clarabel.Lemmas.KktFillBlock
 
 -- ====================================================================================
 -- signs
@@ -118,6 +121,44 @@ theorem fill_utilities_are_schedules (K : Csc α) (v : Array Nat) (r c : Nat) (s
       | .triu => denseTriuSchedule r c
       | .tril => denseTrilSchedule r c) :=
   ⟨rfl, rfl, rfl, rfl⟩
+
+/-- [S] `C11.assembly_map_coord` — the `fill_block` coordinate theorem
+(`coord(map.P[k]) = coord_P(k)`, `coord(map.A[k])`): for a block `M` with a well-formed
+`colptr` (`BlockWF`), filled with free column ranges that do not overlap, stored entry `j`
+of column `i` of `M` is recorded at `MtoKKT[j] = d` where `d` lies in the free range of KKT
+column `col` (so after `backshift_colptrs` it belongs to that column), holds row `row` and
+the value `M.nzval[j]`, with `(row, col) = (M.rowval[j] + initrow, i + initcol)` for shape
+`N` (P in triu, A in tril) and `(i + initrow, M.rowval[j] + initcol)` for shape `T`
+(A' in triu, P' in tril). -/
+theorem assembly_map_coord {α : Type} {M : Csc α} (hwf : BlockWF M) (K K' : Csc α)
+    (map map' : Array Nat) (r0 c0 : Nat) (shape : MatrixShape) (sched : List (Entry α))
+    (hs : blockSchedule M r0 c0 shape = .ok sched)
+    (hdis : RangesDisjoint K.colptr sched)
+    (h : fillBlock K M map r0 c0 shape = .ok (K', map'))
+    (i j : Nat) (hi : i < M.n) (hlo : M.colptr.getD i 0 ≤ j) (hhi : j < M.colptr.getD (i + 1) 0) :
+    ∃ d p, map'[j]? = some d ∧
+      K.colptr[(blockCoord shape r0 c0 i (M.rowval.getD j 0)).2]? = some p ∧ p ≤ d ∧
+      d < p + cnt (blockCoord shape r0 c0 i (M.rowval.getD j 0)).2 sched ∧
+      K'.rowval[d]? = some (blockCoord shape r0 c0 i (M.rowval.getD j 0)).1 ∧
+      K'.nzval[d]? = M.nzval[j]? :=
+  fillBlock_coord hwf K K' map map' r0 c0 shape sched hs hdis h i j hi hlo hhi
+
+/-- [S] the index map of a block is injective: different stored entries get different
+destinations. -/
+theorem assembly_map_injective {α : Type} {M : Csc α} (hwf : BlockWF M) (K K' : Csc α)
+    (map map' : Array Nat) (r0 c0 : Nat) (shape : MatrixShape) (sched : List (Entry α))
+    (hs : blockSchedule M r0 c0 shape = .ok sched)
+    (hdis : RangesDisjoint K.colptr sched)
+    (h : fillBlock K M map r0 c0 shape = .ok (K', map'))
+    (j j' d : Nat) (hj : j < M.rowval.size) (hj' : j' < M.rowval.size) (hne : j ≠ j')
+    (hd : map'[j]? = some d) : map'[j']? ≠ some d :=
+  fillBlock_dest_ne hwf K K' map map' r0 c0 shape sched hs hdis h j j' d hj hj' hne hd
+
+/-- non-vacuity of `BlockWF`: a 2×2 block with three stored entries. -/
+example : BlockWF (⟨2, 2, #[0, 1, 3], #[0, 0, 1], #[4, 1, 2]⟩ : Csc Nat) :=
+  ⟨by rfl, by rfl, by intro i hi; match i, hi with
+    | 0, _ => decide
+    | 1, _ => decide, by rfl, by rfl⟩
 
 end assembly
 
@@ -236,18 +277,11 @@ section update
 variable {α : Type} [Add α] [Sub α] [Mul α] [Div α] [Neg α] [OfNat α 0] [OfNat α 1]
   [LT α] [DecidableLT α] [FloatLike α]
 
-/-
-  Intended full statement (`C11.update_writes_H`): after `update`, the entries at
-  `map.Hsblocks` equal `−get_Hs` for every cone list, and the expansion entries hold
-  `−η²u, −η²v, ∓η²` / `−√μ p,q,r, −1,−1,+1`.
-  Proved: the case without sparse-expandable cones (zero / nonnegative / small second-order /
-  exponential / power / PSD cones).  Missing: that `csc_update_sparsecone` leaves every
-  position outside its own index vectors untouched (routine, not done); the sparse case is
-  covered bit-for-bit by channel `kkt.update` and its oracles.
--/
+set_option linter.unusedSectionVars false
 
-/-- [S] `C11.update_writes_H_partial`. -/
-theorem update_writes_H_partial (nz nz' : Array α) (map : LDLDataMap) (cones : List (ConeScaling α))
+/-- [S] `C11.update_writes_H` restricted to cone lists without sparse expansions (kept: its
+hypotheses are weaker than those of the general theorem below). -/
+theorem update_writes_H_nonsparse (nz nz' : Array α) (map : LDLDataMap) (cones : List (ConeScaling α))
     (hns : ∀ c ∈ cones, c.isSparse = false)
     (hnd : map.Hsblocks.toList.Nodup)
     (h : updateValues nz map cones = .ok nz') :
@@ -267,6 +301,65 @@ example (x h : α) :
       = .ok #[-h] := by
   simp [updateValues, getHs, updateValuesKKT, ConeScaling.isSparse, setE, pure, Except.pure,
     bind, Except.bind]
+
+/-- [S] `C11.update_writes_H`: for EVERY cone list (sparse expansions included), provided
+the index vectors are what the assembly produces (Hs positions distinct and not shared with
+an expansion), after `update` the positions `map.Hsblocks` hold `−get_Hs` entry for entry and
+every position outside `map.Hsblocks` and outside the expansion index vectors is unchanged
+(in particular the `P`, `A` entries and the filled-in diagonal). -/
+theorem update_writes_H (nz nz' : Array α) (map : LDLDataMap) (cones : List (ConeScaling α))
+    (hnd : map.Hsblocks.toList.Nodup)
+    (hdisj : ∀ mp ∈ map.sparse_maps.toList, ∀ j ∈ mp.indices, j ∉ map.Hsblocks.toList)
+    (h : updateValues nz map cones = .ok nz') :
+    ∃ blocks, cones.mapM getHs = .ok blocks ∧
+      nz'.size = nz.size ∧
+      (∀ j, j ∉ map.Hsblocks.toList → (∀ mp ∈ map.sparse_maps.toList, j ∉ mp.indices) →
+        nz'[j]? = nz[j]?) ∧
+      (∀ k (hk : k < map.Hsblocks.size)
+         (_ : map.Hsblocks.size ≤ ((blocks.map Array.toList).flatten).length)
+         (hk2 : k < ((blocks.map Array.toList).flatten).length),
+        nz'[map.Hsblocks[k]]? = some (-((blocks.map Array.toList).flatten)[k])) :=
+  updateValues_frame_and_Hs nz nz' map cones hnd hdisj h
+
+/-- [S] `csc_update_sparsecone` only touches its own index vectors. -/
+theorem update_sparsecone_frame {nz nz' : Array α} {mp : SparseMap} {c : ConeScaling α}
+    (h : updateSparsecone nz mp c = .ok nz') :
+    nz'.size = nz.size ∧ ∀ j, j ∉ mp.indices → nz'[j]? = nz[j]? :=
+  updateSparsecone_frame h
+
+/-- [S] the second-order-cone expansion entries after the whole `update`: the `i`-th sparse
+cone's `u`, `v` positions hold `u·(−η²)`, `v·(−η²)` and its two diagonal positions `−η²`, `η²`
+(index vectors of different expansions pairwise disjoint, this one without repetition). -/
+theorem update_writes_soc_expansion (nz nz' : Array α) (map : LDLDataMap)
+    (cones : List (ConeScaling α)) (hdisj : SparseMapsDisjoint map.sparse_maps)
+    (h : updateValues nz map cones = .ok nz')
+    {i dim : Nat} {η d : α} {u v : Array α} {mu mv mD : Array Nat}
+    (hc : (cones.filter (fun c => c.isSparse))[i]? = some (.socSparse dim η u v d))
+    (hm : map.sparse_maps[i]? = some (.soc mu mv mD))
+    (hndm : (SparseMap.soc mu mv mD).indices.Nodup)
+    (hu : mu.size = u.size) (hv : mv.size = v.size) (hD : mD.size = 2) :
+    (∀ k (hk : k < mu.size), nz'[mu[k]]? = some (u[k]'(by omega) * -(η * η))) ∧
+    (∀ k (hk : k < mv.size), nz'[mv[k]]? = some (v[k]'(by omega) * -(η * η))) ∧
+    nz'[mD[0]'(by omega)]? = some (-(η * η)) ∧
+    nz'[mD[1]'(by omega)]? = some (η * η) :=
+  updateValues_sparse_entries_soc nz nz' map cones hdisj h hc hm hndm hu hv hD
+
+/-- [S] the generalised-power-cone expansion entries after the whole `update`:
+`q,r,p·(−√μ)` and the diagonal `−1, −1, +1`. -/
+theorem update_writes_genpow_expansion (nz nz' : Array α) (map : LDLDataMap)
+    (cones : List (ConeScaling α)) (hdisj : SparseMapsDisjoint map.sparse_maps)
+    (h : updateValues nz map cones = .ok nz')
+    {i : Nat} {μ d2 : α} {p q r d1 : Array α} {mp mq mr mD : Array Nat}
+    (hc : (cones.filter (fun c => c.isSparse))[i]? = some (.genpow μ p q r d1 d2))
+    (hm : map.sparse_maps[i]? = some (.genpow mp mq mr mD))
+    (hndm : (SparseMap.genpow mp mq mr mD).indices.Nodup)
+    (hp : mp.size = p.size) (hq : mq.size = q.size) (hr : mr.size = r.size) (hD : mD.size = 3) :
+    (∀ k (hk : k < mq.size), nz'[mq[k]]? = some (q[k]'(by omega) * -(sqrt μ))) ∧
+    (∀ k (hk : k < mr.size), nz'[mr[k]]? = some (r[k]'(by omega) * -(sqrt μ))) ∧
+    (∀ k (hk : k < mp.size), nz'[mp[k]]? = some (p[k]'(by omega) * -(sqrt μ))) ∧
+    nz'[mD[0]'(by omega)]? = some (-1) ∧ nz'[mD[1]'(by omega)]? = some (-1) ∧
+    nz'[mD[2]'(by omega)]? = some 1 :=
+  updateValues_sparse_entries_genpow nz nz' map cones hdisj h hc hm hndm hp hq hr hD
 
 end update
 
